@@ -88,13 +88,20 @@ KINDS = [
          val=lambda t, n: set(_ints(t, n)), bad=lambda v: set(list(v)[:-1] + ["x"])),
     dict(name="Map", decl="Map[String, Integer]", tree=node("Map", LEAF, LEAF), flat="Map",
          val=lambda t, n: dict(zip(_strs(t, n), _ints(t, n))), bad=lambda v: dict(list(v.items())[:-1] + [("k", "x")])),
-    dict(name="AllOf", decl="AllOf[Integer, Number]", tree=node("AllOf", LEAF, LEAF), flat="AllOf", fixed=2,
+    dict(name="AllOf", wrapper=True, decl="AllOf[Integer, Number]", tree=node("AllOf", LEAF, LEAF), flat="AllOf", fixed=2,
          val=lambda t, n: 1000 * (t + 1), bad=lambda v: "x"),
-    dict(name="AnyOf", decl="AnyOf[Integer, String]", tree=node("AnyOf", LEAF, LEAF), flat="AnyOf", fixed=1, fixed_bad=2,
+    dict(name="AnyOf", wrapper=True, decl="AnyOf[Integer, String]", tree=node("AnyOf", LEAF, LEAF), flat="AnyOf", fixed=1, fixed_bad=2,
          val=lambda t, n: 1000 * (t + 1), bad=lambda v: 1.5),
-    dict(name="OneOf", decl="OneOf[Integer, String]", tree=node("OneOf", LEAF, LEAF),
+    dict(name="OneOf", wrapper=True, decl="OneOf[Integer, String]", tree=node("OneOf", LEAF, LEAF),
          val=lambda t, n: 1000 * (t + 1) if t % 2 == 0 else "s%d" % t, bad=lambda v: 1.5),
-    dict(name="NotField", decl="NotField[String]", tree=node("NotField", LEAF), val=lambda t, n: 1000 * (t + 1), bad=lambda v: "x"),
+    dict(name="NotField", wrapper=True, decl="NotField[String]", tree=node("NotField", LEAF), val=lambda t, n: 1000 * (t + 1), bad=lambda v: "x"),
+    # wrappers whose option is a collection (the option USES its name while it iterates)
+    dict(name="OneOf[Array]", decl="OneOf[Array[Integer], String]", tree=node("OneOf", node("Array.Each", LEAF), LEAF),
+         val=lambda t, n: _ints(t, n), bad=lambda v: v[:-1] + ["x"], wrapper=True),
+    dict(name="NotField[Array]", decl="NotField[Array[String]]", tree=node("NotField", node("Array.Each", LEAF)),
+         val=lambda t, n: _ints(t, n), bad=lambda v: ["s%d" % x for x in v], wrapper=True),
+    dict(name="OneOf[Tuple]", decl="OneOf[Tuple[Integer, String], Integer]", tree=node("OneOf", node("Tuple.Positional", LEAF, LEAF), LEAF),
+         fixed_n=2, val=lambda t, n: (1000 * (t + 1), "s%d" % t), bad=lambda v: (v[0], 5), wrapper=True),
     # nested
     dict(name="Array[Array]", decl="Array[Array[Integer]]", tree=node("Array.Each", node("Array.Each", LEAF)),
          val=lambda t, n: [_ints(t, 2, 10 * i) for i in range(n)], bad=lambda v: v[:-1] + [[v[-1][0], "x"]]),
@@ -574,7 +581,7 @@ def coq_classification(sa):
     return verdicts, racy, ""
 
 
-VERDICT_NAMES = {0: "SafePrivate", 1: "SafeIdempotent", 2: "Racy", 3: "CacheConst", 4: "Undecided"}
+VERDICT_NAMES = {0: "SafePrivate", 1: "SafeIdempotent", 2: "Racy", 3: "CacheConst", 4: "Undecided", 5: "Toggle"}
 
 
 # ------------------------------------------------------------------ traces for the correspondence
@@ -976,17 +983,19 @@ def coq_classification2(sa, ca, trees, classes=None):
     idx = {e["name"]: i for i, e in enumerate(sa["entries"])}
     classes = classes or {}
     cnames = sorted(classes)
-    body = "Eval vm_compute in cache_verdicts.\nEval vm_compute in cache_witnesses.\nEval vm_compute in cache_placeholder_tags.\n"
+    body = ("Eval vm_compute in cache_verdicts.\nEval vm_compute in cache_witnesses.\nEval vm_compute in cache_placeholder_tags.\n"
+            "Eval vm_compute in cache_removal_witnesses.\n")
     for (_, _, _, t) in trees:
         body += "Eval vm_compute in (racy_nodes %s).\n" % emit_tree(t, idx)
     for cn in cnames:
         body += "Eval vm_compute in (class_safe_of %s).\n" % E.lst([str(i) for i in classes[cn][0]])
     rc, out, err = core.eval_cases([body], "c20cls2", HEADER2)[0]
     vals = core.parse_eval(out)
-    if rc != 0 or len(vals) != 3 + len(trees) + len(cnames):
+    if rc != 0 or len(vals) != 4 + len(trees) + len(cnames):
         return None, (out + err)[-1500:]
-    class_vals = vals[3 + len(trees):]
-    vals = vals[:3 + len(trees)]
+    class_vals = vals[4 + len(trees):]
+    rwit = core.parse_nat_list(vals[3])
+    vals = vals[:3] + vals[4:4 + len(trees)]
     codes = core.parse_nat_list(vals[0])
     wit = core.parse_nat_list(vals[1])
     tags = core.parse_nat_list(vals[2])
@@ -995,7 +1004,9 @@ def coq_classification2(sa, ca, trees, classes=None):
     caches = []
     for i, e in enumerate(ca["entries"]):
         w = wit[5 * i:5 * i + 5]
-        caches.append({"name": e["name"], "verdict": codes[i], "witness": w[1:] if w[0] else None, "tag": tags[i]})
+        rw = rwit[5 * i:5 * i + 5] if len(rwit) == 5 * len(codes) else [0] * 5
+        caches.append({"name": e["name"], "verdict": codes[i], "witness": w[1:] if w[0] else None, "tag": tags[i],
+                       "removal": rw[1:] if rw[0] else None})
     racy = []
     for v in vals[3:]:
         racy.append([sa["entries"][i]["name"] if i < len(sa["entries"]) else "?" for i in core.parse_nat_list(v)])
@@ -1054,6 +1065,27 @@ def cache_stream(rep, ca, cls2, model_ok):
         dev, tried = (None, 0)
         if c["verdict"] == 2 and c["tag"]:
             dev, tried = LN.cache_witness_replay(e, c["tag"])
+        if dev is None and c["verdict"] == 2 and c.get("removal"):
+            # check-then-read next to a removal site: (reader protocol, steps to its test, remover protocol, steps to its removal)
+            ri, rsteps, qi, qsteps = c["removal"]
+            try:
+                reads = [a for a in e["progs"][ri]["acts"] if a[1] == "R"]
+                clears = [a for a in e["progs"][qi]["acts"] if a[1] == "C"]
+                rdev, rtried, rnote = LN.cache_removal_replay(e, reads[0][2], clears[0][2])
+            except Exception as ex:  # noqa
+                rdev, rtried, rnote = None, 0, "replay failed: %s: %s" % (type(ex).__name__, ex)
+            tried += rtried
+            if rdev is not None:
+                t = rdev["threads"][0]
+                sym, what, _ = LN.symptom(rdev, t)
+                rep.count("cache-witness", rtried, e["name"])
+                rep.finding("C20/cache/%s/removed-between-test-and-read" % e["name"],
+                            "%s: the model's removal witness replayed on the implementation (the reader's key is cached; it is stopped "
+                            "before line %d of %s, after its membership test hit; a second thread's burst of %s operations with distinct "
+                            "keys reaches the removal at line %d; the reader resumes): thread %d (%s): %s"
+                            % (e["name"], reads[0][2], e["file"], rdev["ops"][1][1], clears[0][2], t, rdev["ops"][t][0], what), rdev)
+                continue
+            bad[-1] += " (%s)" % rnote
         if dev is not None:
             t = dev["threads"][0]
             sym, what, _ = LN.symptom(dev, t)
@@ -1231,7 +1263,8 @@ def run(rep, tier):
     for k in KINDS:
         for spec in op_tuples(tier):
             fresh = all(o in ("serialize", "fieldser") for o, _ in spec[:2])
-            tasks.append((k["name"], spec, bps, max_pre, cap, rnd.randrange(1 << 30), fresh))
+            kcap = max(cap, 1600) if k.get("wrapper") and len(spec) == 2 else cap
+            tasks.append((k["name"], spec, bps, max_pre, kcap, rnd.randrange(1 << 30), fresh))
     t0 = time.time()
     ctx = multiprocessing.get_context("fork")
     results = []
